@@ -97,6 +97,9 @@ class Check:
                 agg[k] = agg.get(k, 0) + 1
             for k, n in sorted(agg.items(), key=lambda x: -x[1])[:15]:
                 print(f"  violation class x{n}: {k}")
+        if self.violations:
+            REPLAYS.mkdir(exist_ok=True)
+            (REPLAYS / f"{self.pid}_{self.tier}_all.txt").write_text("\n".join(json.dumps(v["key"], sort_keys=True) + " :: " + v["what"] for v in self.violations) + "\n")
         for v in self.violations[:20]:
             print(f"VIOLATION property={self.pid} replay={v['replay']}")
             print(f"  what: {v['what']}")
